@@ -17,6 +17,9 @@ world reachable by an editing history (`C15_at_any_moment`).  A panel is the res
 `Workflow._build_io`, which *raises* when two channels would get the same key; `some p` is
 "the access returned the panel `p`".
 
+The second half (`C15_live_inv` … `C15_at_any_moment_live`) covers the larger editing alphabet:
+in-place edits of the LIVE map objects returned by the `inputs_map`/`outputs_map` getters.
+
 Only property theorems live here; the lemmas are in `Proofs/WfIO.lean`.
 -/
 namespace PwVerif.C15
@@ -307,6 +310,216 @@ example : readmeW.panel .outputs = some [("mid", 3), ("y", 7)] ∧ readmeW.conne
     readmeW.labelOf .outputs 3 = "o" := by decide
 example : rebuildOk .chanLabel exW = false ∧ rebuildOk .panelKey exW = true := by decide
 
+/-! ## The larger editing alphabet: in-place edits of the LIVE map objects
+
+`wf.inputs_map` / `wf.outputs_map` return the stored `bidict` itself; the user may keep the
+reference and edit it entry by entry (`m[k] = None`, `del m[k]`, `m.update(…)`, `m.pop(k)`,
+`m.forceput(…)`, `m.inverse[name] = k`, …), and a `bidict` argument of the setter is stored
+without any clean-up.  `Op.read` is the getter (it cleans the stored object in place and is
+called by every access of `wf.inputs`/`wf.outputs`), `Op.edit` a raw edit of the live object,
+`Op.setMapB` the assignment of a `bidict`.  All theorems above quantify over arbitrary worlds
+and therefore hold after these operations too; the theorems below say what is specific to them. -/
+
+/-- **The stored maps stay one-to-one.** After every history over the larger alphabet (the
+arguments of whole-map assignments being Python mappings, i.e. with pairwise different keys)
+both stored maps have pairwise different keys, pairwise different values, and every disabled
+marker sits under the key it names. -/
+theorem C15_live_inv (admits : Nat → Val → Bool) (valid : Nat → Nat → Bool) (ops : List Op)
+    (hwf : ∀ op ∈ ops, op.WF) : WInv (run (empty admits valid) ops) :=
+  run_inv ops hwf _ (empty_inv _ _)
+
+/-- **Reading is harmless.** On well-formed stored maps the getter never raises, the panel
+access as the code runs it (`W.access`: clean up the stored object, then `_build_io`) returns
+what `_build_io` returns on the stored map as it is — a raw `None` is read as *hidden*, not as
+"not in the map" —, the user sees the same map before and after, and afterwards no raw `None`
+is stored. -/
+theorem C15_read_ok (w : W) (h : WInv w) (s : Side) :
+    (step w (.read s)).2 = .ok ∧ (w.access s).2 = w.panel s ∧
+    userView (((step w (.read s)).1.map s).getD []) = userView ((w.map s).getD []) ∧
+    (∀ m, (step w (.read s)).1.map s = some m → MapInv m ∧ Normal m) := by
+  obtain ⟨h1, h2, h3, h4, _⟩ := read_map w s
+  have hm := h.map s
+  have key : (readMap (w.map s)).2 = .ok ∧
+      userView ((readMap (w.map s)).1.getD []) = userView ((w.map s).getD []) ∧
+      (∀ m, (readMap (w.map s)).1 = some m → MapInv m ∧ Normal m) := by
+    cases hw : w.map s with
+    | none => simp [readMap]
+    | some m =>
+      rw [hw] at hm
+      obtain ⟨a, b, c, d⟩ := normalize_spec hm
+      refine ⟨a, c, ?_⟩
+      intro m' e
+      simp only [readMap, Option.some.injEq] at e
+      subst e; exact ⟨b, d⟩
+  refine ⟨h2 ▸ key.1, ?_, h1 ▸ key.2.1, h1 ▸ key.2.2⟩
+  unfold W.access
+  simp only [h2, key.1, if_true]
+  exact panel_congr w _ s h3 h4 (h1 ▸ key.2.1)
+
+/-- **The set expression in the user's terms.** Whenever the access returns, the panel is the
+stated set expression computed from the map *as the user sees it* (key ↦ name, `None` = hidden):
+exposed if mapped to a name, hidden if mapped to `None` (however that is stored at the moment),
+otherwise present iff unconnected, under the mapped name or else `child__channel`. -/
+theorem C15_io_user_spec (w : W) (s : Side) (p : Panel) (h : w.panel s = some p) :
+    p = uspec (userView ((w.map s).getD [])) w.connected (w.chans s) := by
+  rw [C15_io_spec w s p h, W.spec, spec_eq_uspec]
+
+/-- **A refused in-place edit leaves everything as it was** (`ValueDuplicationError`,
+`KeyAndValueDuplicationError` — also of a multi-item `update`, which is rolled back —, `KeyError`,
+or the `TypeError`/`AttributeError` of editing a map that is `None`). -/
+theorem C15_edit_refused_noop (w : W) (s : Side) (e : Edit) (h : (step w (.edit s e)).2 ≠ .ok) :
+    (step w (.edit s e)).1 = w := by
+  cases s
+  · simp only [step] at h ⊢
+    cases hm : w.imap with
+    | none => cases w; simp_all [editStored]
+    | some m =>
+      rw [hm] at h
+      have := editMap_err_same m e (by simpa [editStored] using h)
+      cases w; simp_all [editStored]
+  · simp only [step] at h ⊢
+    cases hm : w.omap with
+    | none => cases w; simp_all [editStored]
+    | some m =>
+      rw [hm] at h
+      have := editMap_err_same m e (by simpa [editStored] using h)
+      cases w; simp_all [editStored]
+
+/-- … and so does a refused assignment of a `bidict`. -/
+theorem C15_setMapB_refused_noop (w : W) (s : Side) (m : UserMap) (h : (step w (.setMapB s m)).2 ≠ .ok) :
+    (step w (.setMapB s m)).1 = w := by
+  cases s <;> simp_all [step, setMapB] <;> split at h <;> simp_all
+
+/-- **`m[k] = v` on the live map, completely.** On a well-formed stored map the item assignment
+is refused iff the value already sits under ANOTHER key (two channels to one name — or a second
+raw `None` on a reference that was held across the first); a refused one changes nothing; an
+accepted one makes the map say `k ↦ v` and nothing else new. -/
+theorem C15_put_spec {m : KeyMap} (h : MapInv m) (k : String) (v : Option String) :
+    ((editMap m (.put k v)).2 ≠ .ok ↔ ∃ k', k' ≠ k ∧ (k', Target.ofUser v) ∈ m) ∧
+    ((editMap m (.put k v)).2 ≠ .ok → (editMap m (.put k v)).1 = m) ∧
+    ((editMap m (.put k v)).2 = .ok → ∀ x, (userView (editMap m (.put k v)).1).lookup x =
+      if x = k then some v else (userView m).lookup x) := by
+  refine ⟨bput_refused_iff h k _, bput_err_same m k _, ?_⟩
+  intro hok x
+  simp only [editMap] at hok ⊢
+  rw [lookup_userView, lookup_userView, bput_ok_lookup h k _ hok x]
+  by_cases hx : x = k <;> simp [hx, view_ofUser]
+
+/-- through the getter (`wf.inputs_map[k] = None`) hiding is never refused: the getter has
+just replaced every raw `None`, however many channels are hidden already -/
+theorem C15_getter_hide_accepted (w : W) (h : WInv w) (s : Side) (k : String) (m : KeyMap)
+    (hm : w.map s = some m) :
+    (step (step w (.read s)).1 (.edit s (.put k none))).2 = .ok := by
+  obtain ⟨_, _, _, h4⟩ := C15_read_ok w h s
+  obtain ⟨h1, _, _, _, _⟩ := read_map w s
+  obtain ⟨_, e2, _, _⟩ := edit_map (step w (.read s)).1 s (.put k none)
+  rw [e2]
+  have : ∃ m1, (step w (.read s)).1.map s = some m1 := by
+    rw [h1, hm]; exact ⟨_, rfl⟩
+  obtain ⟨m1, hm1⟩ := this
+  rw [hm1]
+  exact bput_none_ok (h4 m1 hm1).2 k
+
+/-- **Hidden stays hidden.** After an accepted `m[k] = None` on the live map — with or without
+any clean-up before or after — no channel whose canonical key is `k` is in the panel. -/
+theorem C15_live_hide (w : W) (h : WInv w) (s : Side) (k : String)
+    (hok : (step w (.edit s (.put k none))).2 = .ok) (hsome : (w.map s).isSome) :
+    ∀ p, (step w (.edit s (.put k none))).1.panel s = some p →
+      ∀ e ∈ p, ∃ ch ∈ w.chans s, ch.2 = e.2 ∧ ch.1 ≠ k := by
+  obtain ⟨e1, e2, e3, e4⟩ := edit_map w s (.put k none)
+  obtain ⟨m, hm⟩ := Option.isSome_iff_exists.mp hsome
+  have hinv : MapInv m := by have := h.map s; rwa [hm] at this
+  intro p hp e he
+  rw [C15_io_user_spec _ s p hp] at he
+  have hch : ((step w (.edit s (.put k none))).1.chans s) = w.chans s := by simp [W.chans, e3]
+  rw [hch, e1, hm] at he
+  simp only [editStored, Option.getD_some, uspec, List.mem_map, List.mem_filter] at he
+  obtain ⟨ch, ⟨hmem, hin⟩, rfl⟩ := he
+  refine ⟨ch, hmem, rfl, ?_⟩
+  intro hk
+  rw [e2, hm] at hok
+  simp only [editStored] at hok
+  have := (C15_put_spec hinv k none).2.2 hok ch.1
+  simp only [hk, if_true] at this
+  simp [uInIO, hk, this] at hin
+
+/-- **At any moment, larger alphabet.** After every history of adding/removing children,
+connecting/disconnecting, whole-map assignments (dict or bidict, accepted or refused), getter
+calls and in-place edits of the live maps (accepted or refused), for either side: the stored
+maps are well-formed, the access as the code runs it does not raise in the getter and equals
+`_build_io` on the stored map, and that is the set expression over the map as the user sees it
+— or the access raises because two visible channels would share one key; never anything else. -/
+theorem C15_at_any_moment_live (admits : Nat → Val → Bool) (valid : Nat → Nat → Bool) (ops : List Op)
+    (hwf : ∀ op ∈ ops, op.WF) (s : Side) :
+    let w := run (empty admits valid) ops
+    WInv w ∧ (step w (.read s)).2 = .ok ∧ (w.access s).2 = w.panel s ∧
+    ((w.panel s = some (uspec (userView ((w.map s).getD [])) w.connected (w.chans s)) ∧
+        NoClash (w.map s) w.connected (w.chans s)) ∨
+      (w.panel s = none ∧ ¬ NoClash (w.map s) w.connected (w.chans s))) := by
+  intro w
+  have hinv : WInv w := C15_live_inv admits valid ops hwf
+  obtain ⟨r1, r2, _, _⟩ := C15_read_ok w hinv s
+  refine ⟨hinv, r1, r2, ?_⟩
+  by_cases h : NoClash (w.map s) w.connected (w.chans s)
+  · refine .inl ⟨?_, h⟩
+    have := C15_io_total w s h
+    rw [this, W.spec, spec_eq_uspec]
+  · exact .inr ⟨(buildIO_none_iff _ _ _).mpr h, h⟩
+
+
+/-! ### Non-vacuity: a concrete history with live edits -/
+
+/-- `n0.o → n1.a`; outputs map assigned, then `wf.outputs_map['n1__o'] = None`; inputs map assigned
+(one `None`), then on a HELD reference `m['n0__c'] = None` (accepted, raw), `m['n1__b'] = None`
+(refused: second raw `None`), a panel access (cleans up), `m['n1__b'] = None` again (accepted),
+`m.inverse['x'] = 'n1__c'` (drops `n0__a ↦ x`), a two-item `update` that is rolled back,
+`del m['nokey']` (KeyError), a `bidict` assigned to the outputs and one entry popped. -/
+def liveOps : List Op :=
+  [.add c0, .add c1, .connect 4 3,
+   .setMap .outputs (some [("n0__o", some "mid")]),
+   .read .outputs, .edit .outputs (.put "n1__o" none),
+   .setMap .inputs (some [("n0__a", some "x"), ("n0__b", none)]),
+   .read .inputs, .edit .inputs (.put "n0__c" none), .edit .inputs (.put "n1__b" none),
+   .read .inputs, .edit .inputs (.put "n1__b" none),
+   .edit .inputs (.invPut (some "x") "n1__c"),
+   .edit .inputs (.update [("n0__a", some "k"), ("n0__b", some "x")]),
+   .edit .inputs (.del "nokey")]
+
+def liveW : W := run (empty (fun _ _ => true) (fun _ _ => true)) liveOps
+
+theorem liveOps_wf : ∀ op ∈ liveOps, op.WF := by simp [liveOps, Op.WF]
+example : liveW.imap = some [("n0__b", .disabled "n0__b"), ("n0__c", .disabled "n0__c"),
+    ("n1__b", .rawNone), ("n1__c", .name "x")] := by decide
+example : liveW.omap = some [("n0__o", .name "mid"), ("n1__o", .rawNone)] := by decide
+/-- the raw `None`s are read as hidden, before and after the getter's clean-up -/
+example : liveW.panel .inputs = some [("n0__a", 0), ("x", 6)] ∧ liveW.panel .outputs = some [("mid", 3)] := by decide
+example : (liveW.access .inputs).2 = some [("n0__a", 0), ("x", 6)] ∧
+    (liveW.access .inputs).1.imap = some [("n0__b", .disabled "n0__b"), ("n0__c", .disabled "n0__c"),
+      ("n1__b", .disabled "n1__b"), ("n1__c", .name "x")] := by decide
+/-- the outcomes of the individual edits -/
+example : (liveOps.foldl (fun (acc : W × List Res) o => ((step acc.1 o).1, acc.2 ++ [(step acc.1 o).2]))
+    (empty (fun _ _ => true) (fun _ _ => true), [])).2 =
+    [.ok, .ok, .ok, .ok, .ok, .ok, .ok, .ok, .ok, .dupErr, .ok, .ok, .ok, .kvDupErr, .keyErr] := by decide
+/-- hypotheses of `C15_live_hide` / `C15_getter_hide_accepted` / `C15_put_spec` hold in the example -/
+example : WInv liveW := C15_live_inv _ _ liveOps liveOps_wf
+example : (step liveW (.edit .inputs (.put "n0__a" none))).2 = .dupErr ∧
+    (step (step liveW (.read .inputs)).1 (.edit .inputs (.put "n0__a" none))).2 = .ok ∧
+    (step (step liveW (.read .inputs)).1 (.edit .inputs (.put "n0__a" none))).1.panel .inputs = some [("x", 6)] := by
+  decide
+/-- a `bidict` argument is stored uncleaned; edits of a map that is `None` raise -/
+example : (step liveW (.setMapB .outputs [("n1__o", none), ("n0__o", some "z")])).1.omap =
+    some [("n1__o", .rawNone), ("n0__o", .name "z")] := by decide
+example : (step (empty (fun _ _ => true) (fun _ _ => true)) (.edit .inputs (.put "a" none))).2 = .typeErr ∧
+    (step (empty (fun _ _ => true) (fun _ _ => true)) (.edit .inputs .clear)).2 = .refused := by decide
+/-- `forceput` drops the item that held the name; `popitem`, `setdefault`, `pop(k, None)` -/
+example : (editMap [("a", .name "x"), ("b", .name "y"), ("c", .rawNone)] (.force "b" (some "x"))).1 =
+    [("b", .name "x"), ("c", .rawNone)] := by decide
+example : (editMap [("a", .name "x"), ("b", .name "y")] .popitem).1 = [("a", .name "x")] ∧
+    (editMap [("a", .name "x")] (.setdefault "a" none)).1 = [("a", .name "x")] ∧
+    (editMap [("a", .name "x")] (.setdefault "b" none)).1 = [("a", .name "x"), ("b", .rawNone)] ∧
+    (editMap [("a", .name "x")] (.popd "zz")) = ([("a", .name "x")], .ok) ∧
+    (editMap [("a", .name "x")] (.invDel (some "x"))) = ([], .ok) := by decide
+
 end PwVerif.C15
 
 #print axioms PwVerif.C15.C15_io_spec
@@ -324,3 +537,12 @@ end PwVerif.C15
 #print axioms PwVerif.C15.C15_rebuild_repaired
 #print axioms PwVerif.C15.C15_rebuild_partial
 #print axioms PwVerif.C15.C15_rebuild_pinned_witness
+#print axioms PwVerif.C15.C15_live_inv
+#print axioms PwVerif.C15.C15_read_ok
+#print axioms PwVerif.C15.C15_io_user_spec
+#print axioms PwVerif.C15.C15_edit_refused_noop
+#print axioms PwVerif.C15.C15_setMapB_refused_noop
+#print axioms PwVerif.C15.C15_put_spec
+#print axioms PwVerif.C15.C15_getter_hide_accepted
+#print axioms PwVerif.C15.C15_live_hide
+#print axioms PwVerif.C15.C15_at_any_moment_live
